@@ -133,12 +133,103 @@ Proof.
     apply type_is_of_type.
 Qed.
 
+(* ---- a model-only invariant, preserved by EVERY operation (also by calls and constructors given null):
+   every instance's map is the positional substitution of its own arguments *)
+Definition irel (tbl : ctable) (x : inst) : Prop :=
+  exists g, lookup (i_cls x) tbl = Some g /\ forall n, lookup n (i_map x) = arg_of (g_params g) (i_args x) n.
+Definition MInv (tbl : ctable) (st : state) : Prop := decls st = tbl /\ Forall (irel tbl) (insts st).
+
+Lemma arg_of_nil ps n : arg_of ps [] n = None.
+Proof. destruct ps; reflexivity. Qed.
+
+Lemma Forall_upd_nth {A} (P : A -> Prop) f l i : Forall P l -> (forall x, P x -> P (f x)) -> Forall P (upd_nth i f l).
+Proof. intros H Hf. revert i. induction H; intros [|i]; simpl; constructor; auto. Qed.
+
+Lemma gp_agrees_i tbl x g p v : irel tbl x -> lookup (i_cls x) tbl = Some g ->
+  fst (get_property g (i_map x) p) = g /\
+  match snd (get_property g (i_map x) p) with
+  | None => true
+  | Some t => type_is sub t v
+  end = spec_accepts sub tbl (i_cls x) (i_args x) p v.
+Proof.
+  intros (g' & H4 & H5) Hg. rewrite Hg in H4. inversion H4; subst g'.
+  unfold spec_accepts, get_property. rewrite Hg.
+  destruct (lookup p (g_props g)) as [[[c|n]|]|]; simpl; auto.
+  - split; [reflexivity|]. destruct c, v; reflexivity.
+  - split; [reflexivity|]. rewrite H5. destruct (arg_of (g_params g) (i_args x) n); [|reflexivity].
+    apply type_is_of_type.
+Qed.
+
+Lemma new_inst_irel tbl c g args m vals : wf_tbl tbl = true -> lookup c tbl = Some g ->
+  build_map (g_params g) args [] = Some m ->
+  irel tbl {| i_cls := c; i_args := args; i_map := m; i_vals := vals |}.
+Proof.
+  intros W Hc Hb. exists g. split; [assumption|]. intros n. simpl.
+  rewrite (build_map_lookup _ _ _ _ (nodupb_lookup _ _ _ W Hc) Hb n). simpl.
+  destruct (arg_of (g_params g) args n); reflexivity.
+Qed.
+
+Lemma step_minv tbl st o : wf_tbl tbl = true -> MInv tbl st -> MInv tbl (fst (step sub get_property st o)).
+Proof.
+  intros W [Hd HF]. subst tbl. destruct o as [c args|pa i p v|i p|i m v|c args v|c]; simpl.
+  - destruct (lookup c (decls st)) as [g|] eqn:Hc; [|split; [reflexivity|exact HF]].
+    destruct (build_map (g_params g) args []) as [m|] eqn:Hb; [|split; [reflexivity|exact HF]].
+    split; [reflexivity|]. simpl. apply Forall_app. split; [assumption|]. constructor; [|constructor].
+    eapply new_inst_irel; eauto.
+  - destruct (nth_error (insts st) i) as [x|] eqn:Hx; [|split; [reflexivity|exact HF]].
+    assert (Hix : irel (decls st) x) by (rewrite Forall_forall in HF; apply HF; eapply nth_error_In; eauto).
+    destruct Hix as (g & Hg & Hm). rewrite Hg.
+    destruct (get_property g (i_map x) p) as [g' r] eqn:Hgp.
+    assert (g' = g) by (unfold get_property in Hgp; destruct (lookup p (g_props g)) as [[[?|?]|]|]; inversion Hgp; reflexivity).
+    subst g'. rewrite (upd_same _ _ _ Hg).
+    assert (HS : Forall (irel (decls st)) (set_val i p v (insts st))).
+    { unfold set_val. apply Forall_upd_nth; [assumption|]. intros y (gy & H1 & H2). exists gy. auto. }
+    destruct r as [t|]; [destruct (type_is sub t v)|]; simpl; split; auto; reflexivity.
+  - destruct (nth_error (insts st) i) as [x|] eqn:Hx; [|split; [reflexivity|exact HF]].
+    assert (Hix : irel (decls st) x) by (rewrite Forall_forall in HF; apply HF; eapply nth_error_In; eauto).
+    destruct Hix as (g & Hg & Hm). rewrite Hg.
+    destruct (get_property g (i_map x) p) as [g' r] eqn:Hgp.
+    assert (g' = g) by (unfold get_property in Hgp; destruct (lookup p (g_props g)) as [[[?|?]|]|]; inversion Hgp; reflexivity).
+    subst g'. rewrite (upd_same _ _ _ Hg). simpl. split; auto.
+  - destruct (nth_error (insts st) i) as [x|]; [|split; [reflexivity|exact HF]].
+    destruct (lookup (i_cls x) (decls st)) as [g|]; [|split; [reflexivity|exact HF]].
+    destruct (lookup m (g_meths g)); (split; [reflexivity|exact HF]).
+  - destruct (lookup c (decls st)) as [g|] eqn:Hc; [|split; [reflexivity|exact HF]].
+    destruct (build_map (g_params g) args []) as [m|] eqn:Hb; [|split; [reflexivity|exact HF]].
+    destruct (g_ctor g) as [[p d]|]; [|split; [reflexivity|exact HF]].
+    destruct (ctor_promoted_accepts sub d m v); [|split; [reflexivity|exact HF]].
+    split; [reflexivity|]. simpl. apply Forall_app. split; [assumption|]. constructor; [|constructor].
+    eapply new_inst_irel; eauto.
+  - destruct (lookup c (decls st)) as [g|] eqn:Hc; [|split; [reflexivity|exact HF]].
+    split; [reflexivity|]. simpl. apply Forall_app. split; [assumption|]. constructor; [|constructor].
+    exists g. split; [assumption|]. intros n. simpl. symmetry. apply arg_of_nil.
+Qed.
+Lemma run_minv tbl ops : forall st, wf_tbl tbl = true -> MInv tbl st -> MInv tbl (fst (run sub get_property st ops)).
+Proof.
+  induction ops as [|o r IH]; intros st W H; simpl; [assumption|].
+  pose proof (step_minv tbl st o W H) as H1. destruct (step sub get_property st o) as [st1 b]. simpl in H1.
+  pose proof (IH st1 W H1) as H2. destruct (run sub get_property st1 r) as [st2 bs]. exact H2.
+Qed.
+Lemma MInv_init tbl : MInv tbl (init tbl).
+Proof. split; [reflexivity|constructor]. Qed.
+
+(* a parameter declared with a type, bound on an instance whose map is the substitution of its own arguments *)
+Lemma param_agrees tbl x g d v : irel tbl x -> lookup (i_cls x) tbl = Some g -> v <> VNull ->
+  method_param_accepts sub d (i_map x) v =
+  match member_type g (i_args x) d with None => true | Some t => of_type sub v t end.
+Proof.
+  intros (g' & H4 & H5) Hg Hv. rewrite Hg in H4. inversion H4; subst g'.
+  unfold method_param_accepts, member_type. destruct d as [[c|n]|]; [| |reflexivity].
+  - destruct v; try congruence; destruct c; reflexivity.
+  - rewrite H5. destruct (arg_of (g_params g) (i_args x) n) as [c|]; destruct v; try congruence; try reflexivity; destruct c; reflexivity.
+Qed.
+
 Lemma step_refines tbl st objs o :
-  wf_tbl tbl = true -> Inv tbl st objs ->
+  wf_tbl tbl = true -> op_null_free o = true -> Inv tbl st objs ->
   snd (step sub get_property st o) = snd (spec_step sub tbl objs o) /\
   Inv tbl (fst (step sub get_property st o)) (fst (spec_step sub tbl objs o)).
 Proof.
-  intros W [Hd HF]. destruct o as [c args|pa i p v|i p]; simpl.
+  intros W NF [Hd HF]. destruct o as [c args|pa i p v|i p|i m v|c args v|c]; simpl.
   - (* ONew *)
     rewrite Hd. destruct (lookup c tbl) as [g|] eqn:Hc; simpl; [|split; [reflexivity|split; assumption]].
     destruct (build_map (g_params g) args []) as [m|] eqn:Hb.
@@ -175,34 +266,71 @@ Proof.
     destruct (gp_agrees tbl x s g p VNull Hn Hg) as [Hfst _].
     destruct (get_property g (i_map x) p) as [g' r] eqn:Hgp. simpl in Hfst. subst g'.
     rewrite (upd_same _ _ _ Hg). simpl. rewrite H3. split; [reflexivity|]. split; [reflexivity|assumption].
+  - (* OCall *)
+    pose proof (Forall2_nth_error _ _ _ i HF) as Hn.
+    destruct (nth_error (insts st) i) as [x|], (nth_error objs i) as [s|]; try contradiction;
+      [|split; [reflexivity|split; assumption]].
+    pose proof Hn as (H1 & H2 & _ & g & Hg & Hm). rewrite Hd, <- H1, Hg.
+    destruct (lookup m (g_meths g)) as [d|]; [|split; [reflexivity|split; assumption]].
+    assert (Hv : v <> VNull) by (intros ->; discriminate).
+    rewrite (param_agrees tbl x g d v (ex_intro _ g (conj Hg Hm)) Hg Hv), H2.
+    simpl. split; [reflexivity|split; assumption].
+  - (* ONewC *)
+    rewrite Hd. destruct (lookup c tbl) as [g|] eqn:Hc; simpl; [|split; [reflexivity|split; assumption]].
+    destruct (g_ctor g) as [[p d]|] eqn:Hct.
+    + destruct (build_map (g_params g) args []) as [m|] eqn:Hb.
+      * assert (Hlen : (List.length args <? List.length (g_params g))%nat = false).
+        { apply Nat.ltb_ge. destruct (Nat.le_gt_cases (List.length (g_params g)) (List.length args)); [assumption|].
+          apply (proj2 (build_map_none _ _ [])) in H. congruence. }
+        rewrite Hlen.
+        assert (Hv : v <> VNull) by (intros ->; discriminate).
+        pose proof (new_inst_irel tbl c g args m [(p, v)] W Hc Hb) as Hir.
+        pose proof (param_agrees tbl _ g d v Hir Hc Hv) as Hpa. simpl in Hpa.
+        unfold ctor_promoted_accepts. rewrite Hpa.
+        destruct (match member_type g args d with None => true | Some t => of_type sub v t end).
+        -- simpl. split; [reflexivity|]. split; [reflexivity|]. simpl.
+           apply Forall2_app; [assumption|]. constructor; [|constructor].
+           unfold rel; simpl. repeat split; auto.
+        -- simpl. split; [reflexivity|split; assumption].
+      * apply build_map_none in Hb. apply Nat.ltb_lt in Hb. rewrite Hb. simpl. split; [reflexivity|split; assumption].
+    + destruct (build_map (g_params g) args []); simpl; split; try reflexivity; split; assumption.
+  - (* ONewRaw *)
+    rewrite Hd. destruct (lookup c tbl) as [g|] eqn:Hc; simpl; [|split; [reflexivity|split; assumption]].
+    split; [reflexivity|]. split; [reflexivity|]. simpl.
+    apply Forall2_app; [assumption|]. constructor; [|constructor].
+    unfold rel; simpl. repeat split; auto. exists g. split; [assumption|]. intros n. simpl. symmetry. apply arg_of_nil.
 Qed.
 
 Lemma run_refines tbl ops : forall st objs,
-  wf_tbl tbl = true -> Inv tbl st objs ->
-  snd (run sub get_property st ops) = spec_run sub tbl objs ops /\
-  exists objs', Inv tbl (fst (run sub get_property st ops)) objs'.
+  wf_tbl tbl = true -> null_free ops = true -> Inv tbl st objs ->
+  snd (run sub get_property st ops) = spec_run sub tbl objs ops.
 Proof.
-  induction ops as [|o r IH]; intros st objs W HI; simpl.
-  - split; [reflexivity|]. exists objs. assumption.
-  - destruct (step_refines tbl st objs o W HI) as [Hb HI'].
-    destruct (step sub get_property st o) as [st1 b] eqn:Hs.
-    destruct (spec_step sub tbl objs o) as [objs1 b'] eqn:Hs'. simpl in Hb, HI'. subst b'.
-    destruct (IH st1 objs1 W HI') as [Hr [objs' HI'']].
-    destruct (run sub get_property st1 r) as [st2 bs] eqn:Hr2. simpl in *.
-    split; [now rewrite Hr|]. exists objs'. assumption.
+  induction ops as [|o r IH]; intros st objs W NF HI; simpl; [reflexivity|].
+  simpl in NF. apply andb_true_iff in NF. destruct NF as [NF1 NF2].
+  destruct (step_refines tbl st objs o W NF1 HI) as [Hb HI'].
+  destruct (step sub get_property st o) as [st1 b] eqn:Hs.
+  destruct (spec_step sub tbl objs o) as [objs1 b'] eqn:Hs'. simpl in Hb, HI'. subst b'.
+  pose proof (IH st1 objs1 W NF2 HI') as Hr.
+  destruct (run sub get_property st1 r) as [st2 bs] eqn:Hr2. simpl in *. now rewrite Hr.
 Qed.
 
 Lemma Inv_init tbl : Inv tbl (init tbl) [].
 Proof. split; [reflexivity|constructor]. Qed.
 
-Lemma history_refines_spec_l tbl ops : wf_tbl tbl = true ->
+Lemma history_refines_spec_l tbl ops : wf_tbl tbl = true -> null_free ops = true ->
   snd (run sub get_property (init tbl) ops) = spec_run sub tbl [] ops.
-Proof. intros W. exact (proj1 (run_refines tbl ops _ _ W (Inv_init tbl))). Qed.
+Proof. intros W NF. exact (run_refines tbl ops _ _ W NF (Inv_init tbl)). Qed.
 
 (* ---- the declaration is never changed, from any state, with no hypothesis at all *)
 Lemma step_decls st o : decls (fst (step sub get_property st o)) = decls st.
 Proof.
-  destruct o as [c args|pa i p v|i p]; simpl.
+  destruct o as [c args|pa i p v|i p|i m v|c args v|c]; simpl;
+    [| | | destruct (nth_error (insts st) i) as [x|]; [|reflexivity];
+           destruct (lookup (i_cls x) (decls st)) as [g|]; [|reflexivity]; destruct (lookup m (g_meths g)); reflexivity
+         | destruct (lookup c (decls st)) as [g|]; [|reflexivity];
+           destruct (build_map (g_params g) args []); [|reflexivity]; destruct (g_ctor g) as [[p d]|]; [|reflexivity];
+           destruct (ctor_promoted_accepts sub d l v); reflexivity
+         | destruct (lookup c (decls st)); reflexivity].
   - destruct (lookup c (decls st)); [|reflexivity]. destruct (build_map _ _ _); reflexivity.
   - destruct (nth_error (insts st) i) as [x|]; [|reflexivity].
     destruct (lookup (i_cls x) (decls st)) as [g|] eqn:Hg; [|reflexivity].
@@ -231,16 +359,52 @@ Lemma own_args_only_l tbl ops i x p v : wf_tbl tbl = true ->
   = Some (spec_accepts sub tbl (i_cls x) (i_args x) p v).
 Proof.
   intros W Hx.
-  destruct (proj2 (run_refines tbl ops _ _ W (Inv_init tbl))) as [objs [Hd HF]].
+  destruct (run_minv tbl ops _ W (MInv_init tbl)) as [Hd HF].
   set (st := fst (run sub get_property (init tbl) ops)) in *.
-  pose proof (Forall2_nth_error _ _ _ i HF) as Hn. rewrite Hx in Hn.
-  destruct (nth_error objs i) as [s|]; [|contradiction].
-  pose proof Hn as (H1 & H2 & _ & g & Hg & _).
+  assert (Hix : irel tbl x) by (rewrite Forall_forall in HF; apply HF; eapply nth_error_In; eauto).
+  pose proof Hix as (g & Hg & _).
   unfold accepts. simpl. rewrite Hx, Hd, Hg.
-  destruct (gp_agrees tbl x s g p v Hn Hg) as [_ Hacc].
+  destruct (gp_agrees_i tbl x g p v Hix Hg) as [_ Hacc].
   destruct (get_property g (i_map x) p) as [g' r]. simpl in Hacc.
-  rewrite H1, H2, <- Hacc.
+  rewrite <- Hacc.
   destruct r as [t|]; [destruct (type_is sub t v)|]; reflexivity.
+Qed.
+
+(* the same for a call: what a live instance answers to $o->m(v), v not null, is fixed by its own class and
+   arguments — in any state any history reaches, calls and constructors given null included *)
+Lemma call_own_args_only_l tbl ops i x g m d v : wf_tbl tbl = true -> v <> VNull ->
+  nth_error (insts (fst (run sub get_property (init tbl) ops))) i = Some x ->
+  lookup (i_cls x) tbl = Some g -> lookup m (g_meths g) = Some d ->
+  snd (step sub get_property (fst (run sub get_property (init tbl) ops)) (OCall i m v))
+  = if match member_type g (i_args x) d with None => true | Some t => of_type sub v t end then Accepted else Rejected.
+Proof.
+  intros W Hv Hx Hg Hm.
+  destruct (run_minv tbl ops _ W (MInv_init tbl)) as [Hd HF].
+  set (st := fst (run sub get_property (init tbl) ops)) in *.
+  assert (Hix : irel tbl x) by (rewrite Forall_forall in HF; apply HF; eapply nth_error_In; eauto).
+  simpl. rewrite Hx, Hd, Hg, Hm. simpl. rewrite (param_agrees tbl x g d v Hix Hg Hv). reflexivity.
+Qed.
+
+(* and for a constructor call: whether new G<args>(v) succeeds is fixed by G, args and v alone *)
+Lemma ctor_own_args_only_l tbl ops c args v objs : wf_tbl tbl = true -> v <> VNull ->
+  snd (step sub get_property (fst (run sub get_property (init tbl) ops)) (ONewC c args v))
+  = snd (spec_step sub tbl objs (ONewC c args v)).
+Proof.
+  intros W Hv. pose proof (decl_unchanged_l ops (init tbl)) as Hd. simpl in Hd.
+  set (st := fst (run sub get_property (init tbl) ops)) in *. simpl. rewrite Hd.
+  destruct (lookup c tbl) as [g|] eqn:Hc; simpl; [|reflexivity].
+  destruct (g_ctor g) as [[p d]|] eqn:Hct.
+  - destruct (build_map (g_params g) args []) as [m|] eqn:Hb.
+    + assert (Hlen : (List.length args <? List.length (g_params g))%nat = false).
+      { apply Nat.ltb_ge. destruct (Nat.le_gt_cases (List.length (g_params g)) (List.length args)); [assumption|].
+        apply (proj2 (build_map_none _ _ [])) in H. congruence. }
+      rewrite Hlen.
+      pose proof (new_inst_irel tbl c g args m [(p, v)] W Hc Hb) as Hir.
+      pose proof (param_agrees tbl _ g d v Hir Hc Hv) as Hpa. simpl in Hpa.
+      unfold ctor_promoted_accepts. rewrite Hpa.
+      destruct (match member_type g args d with None => true | Some t => of_type sub v t end); reflexivity.
+    + apply build_map_none in Hb. apply Nat.ltb_lt in Hb. rewrite Hb. reflexivity.
+  - destruct (build_map (g_params g) args []); reflexivity.
 Qed.
 
 (* ---- frame: no operation changes what an existing instance accepts (any state) *)
@@ -249,7 +413,7 @@ Lemma nth_error_step st o i x :
   exists x', nth_error (insts (fst (step sub get_property st o))) i = Some x' /\
              i_cls x' = i_cls x /\ i_args x' = i_args x /\ i_map x' = i_map x.
 Proof.
-  intros Hx. destruct o as [c args|pa j p v|j p]; simpl.
+  intros Hx. destruct o as [c args|pa j p v|j p|j m v|c args v|c]; simpl.
   - destruct (lookup c (decls st)); [|eauto]. destruct (build_map _ _ _); simpl; [|eauto].
     exists x. rewrite nth_error_app1; [auto|]. apply nth_error_Some. congruence.
   - destruct (nth_error (insts st) j) as [y|]; [|eauto].
@@ -262,6 +426,14 @@ Proof.
   - destruct (nth_error (insts st) j) as [y|]; [|eauto].
     destruct (lookup (i_cls y) (decls st)) as [g|]; [|eauto].
     destruct (get_property g (i_map y) p) as [g' r]. simpl. eauto.
+  - destruct (nth_error (insts st) j) as [y|]; [|eauto].
+    destruct (lookup (i_cls y) (decls st)) as [g|]; [|eauto].
+    destruct (lookup m (g_meths g)); simpl; eauto.
+  - destruct (lookup c (decls st)) as [g|]; [|eauto]. destruct (build_map _ _ _) as [mm|]; simpl; [|eauto].
+    destruct (g_ctor g) as [[p d]|]; [|eauto]. destruct (ctor_promoted_accepts sub d mm v); simpl; [|eauto].
+    exists x. rewrite nth_error_app1; [auto|]. apply nth_error_Some. congruence.
+  - destruct (lookup c (decls st)); simpl; [|eauto].
+    exists x. rewrite nth_error_app1; [auto|]. apply nth_error_Some. congruence.
 Qed.
 
 Lemma accepts_char st i p v :
@@ -348,3 +520,14 @@ Proof. exact (method_param_exact_l sub n A v). Qed.
 Lemma ctor_promoted_null_refuted_l : exists sub A,
   ctor_promoted_accepts sub (Some (DGen "T")) [("T", A)] VNull = true /\ of_type sub VNull A = false.
 Proof. exact method_param_null_refuted_l. Qed.
+
+(* null given to a typed parameter inside a history: the model (the code) accepts, the reference semantics
+   does not — the unconditional refinement statement is refuted *)
+Lemma history_null_refuted_l : exists sub tbl h, wf_tbl tbl = true /\
+  snd (run sub get_property (init tbl) h) <> spec_run sub tbl [] h.
+Proof.
+  exists (fun _ _ => false),
+         [("Box", {| g_params := ["T"]; g_props := []; g_meths := [("chk", Some (DGen "T"))]; g_ctor := None |})],
+         [ONew "Box" [CInt]; OCall 0 "chk" VNull].
+  split; [reflexivity|]. vm_compute. discriminate.
+Qed.
